@@ -186,6 +186,24 @@ Definition mon (m : mst) (o : op) (out : list obs) : mst * verdict :=
       | Some l => (m, if denotes l (m_reg m) then [] else [CL_READ])
       | None => (m, [CL_SHAPE])
       end
+  | Par2 u1 u2 =>
+      (* both operations have returned: the data denotes the map after both (for the different
+         entities the harness uses, either completion order gives the same map), and entries of
+         third entities are untouched *)
+      match out with
+      | [NotRunnable] => (m, [])
+      | Done :: dump =>
+          let r1 := spec_apply (spec_apply (m_reg m) u1) u2 in
+          match parse_list dump with
+          | None => ({| m_reg := r1; m_pend := m_pend m; m_log := u2 :: u1 :: m_log m; m_last := m_last m |}, [CL_SHAPE])
+          | Some l =>
+              ({| m_reg := r1; m_pend := m_pend m; m_log := u2 :: u1 :: m_log m; m_last := l |},
+               (if denotes l r1 then [] else [CL_REGISTRY]) ++
+               (if eqb_infos (others (ent_of u2) (others (ent_of u1) l))
+                             (others (ent_of u2) (others (ent_of u1) (m_last m))) then [] else [CL_ISOLATION]))
+          end
+      | _ => (m, [CL_SHAPE])
+      end
   end.
 
 (* nothing is excused: no recorded finding for C20 *)
